@@ -89,7 +89,7 @@ def run_proxy(ctx):
                          good[i][0].get("retry")), good[i][:idx + 1])
     okruns = [r for j, r in enumerate(good) if j not in bad]
     ctx.traces(len(okruns))
-    st = {"sc_stream": 0, "sc_buffered": 0, "sc_retry": 0, "admitted_retried": 0, "halfopen": 0}
+    st = {"sc_stream": 0, "sc_buffered": 0, "sc_retry": 0, "admitted_retried": 0, "halfopen": 0, "waits_elapsed": 0}
     for r in okruns:
         for e in r[1:]:
             if e.get("res") == "shortCircuited":
@@ -98,6 +98,8 @@ def run_proxy(ctx):
                     st["sc_retry"] += 1
             elif e.get("ev") == "req" and e.get("k", 0) > 1:
                 st["admitted_retried"] += 1
+            if e.get("ev") == "tick":
+                st["waits_elapsed"] += 1
             if e.get("s") == "halfopen":
                 st["halfopen"] += 1
         if any(e.get("res") == "shortCircuited" for e in r):
